@@ -472,7 +472,7 @@ PROPS = {
     "C11": {
         "level": "proof",
         "level_prefix": "Partial proof -- contracts discharged without bound on the mechanisms named below, not the whole statement (bounded stand-ins and what is left out are listed): ",
-        "units": ["tsig", "tsigvars", "tsigplace"],
+        "units": ["tsig", "tsigvars", "tsigplace", "tsigseq"],
         "extra_searches": [
             {"bin": "c11_search_tampering", "crate": "replay_tsig", "release": True,
              "what": "what happens to correctly signed messages on the way, all four algorithms, full and half-length MACs (168 cases): the header ID "
@@ -496,7 +496,7 @@ PROPS = {
             {"bin": "d9_tsig_badtime_mac", "crate": "replay_tsig", "finding": "D9"},
             {"bin": "d58_tsig_algorithm_name_case", "crate": "replay_tsig", "finding": "D58"},
         ],
-        "explanation": "Unit tsigplace (tsig/mod.rs, real text): MessageTsig::from_message hands out a TSIG record only if it is the first record of type TSIG in the additional section, parses as TSIG data and is the last record of the section (RFC 8945 5.2), with `start` the position where it begins; no TSIG is Missing, a TSIG followed by anything is Position, a record that does not parse ParseError, TSIG-typed data that does not parse Invalid; the loop terminates. SigningContext::check_answer_time: a NOTAUTH answer with TSIG error BADTIME reports the server's time (FormErr if it carries none) before the local window is looked at; otherwise BadTime exactly when the local clock is outside time signed +- fudge. contracts on the arithmetic and comparison parts of TSIG (the HMAC is ring: asm/FFI, out of reach): "
+        "explanation": "Unit tsigseq (tsig/mod.rs, real text of ClientSequence::{answer, answer_first, answer_subsequent}, whole functions -- the earlier FRAGMENT of answer_subsequent in unit tsig is superseded): nothing unsigned is accepted before a signed first answer has verified, and a rejected first answer leaves the sequence waiting for one; a message is accepted as signed only if the MAC of its TSIG record compares equal (Key::compare_signatures, unit tsig) to the HMAC of the running context over the header with the original ID and ARCOUNT - 1, the message up to the TSIG record and the TSIG variables, and its time is in order; never more than 99 unsigned messages in a row (the 100th is TooManyUnsigned); the slice [12..tsig.start] stays inside the message. Unit tsigplace (tsig/mod.rs, real text): MessageTsig::from_message hands out a TSIG record only if it is the first record of type TSIG in the additional section, parses as TSIG data and is the last record of the section (RFC 8945 5.2), with `start` the position where it begins; no TSIG is Missing, a TSIG followed by anything is Position, a record that does not parse ParseError, TSIG-typed data that does not parse Invalid; the loop terminates. SigningContext::check_answer_time: a NOTAUTH answer with TSIG error BADTIME reports the server's time (FormErr if it carries none) before the local window is looked at; otherwise BadTime exactly when the local clock is outside time signed +- fudge. contracts on the arithmetic and comparison parts of TSIG (the HMAC is ring: asm/FFI, out of reach): "
                        "Algorithm::within_len_bounds and Key::calculate_bounds accept exactly the RFC 8945 section 5.2.2.1 lengths "
                        "max(10, native/2) <= len <= native; Key::compare_signatures is Ok iff the provided MAC is at least "
                        "min_mac_len long, not longer than the computed one and equal to its prefix, BadTrunc/BadSig otherwise; "
